@@ -158,7 +158,7 @@ func c16ScanKind(s string) (kind, tok string) {
 }
 
 func execC16(ops []Op) []string {
-	ctx, cancel := context.WithTimeout(context.Background(), 20*time.Second)
+	ctx, cancel := hangCtx(20 * time.Second)
 	defer cancel()
 	w := newC16World(ctx)
 	defer w.L.Close()
